@@ -157,6 +157,20 @@ func VH_C09_Block() {
 			}
 		}
 	}()
+	if vIntRange("nack_base", 0, 1) == 1 {
+		// the peer reports the first packet of the window missing (it was
+		// lost, a later one arrived) and then stays silent: a NACK for the
+		// base frees nothing, the resend it triggers is not acknowledged
+		// either, and the window stays full
+		time.Sleep(100 * time.Millisecond)
+		nack, _ := (&PacketNACK{Seq: 0}).Serialize()
+		p.s2c.mu.Lock()
+		p.s2c.push(nack)
+		p.s2c.mu.Unlock()
+		if wait < 10*time.Second {
+			wait = 10 * time.Second
+		}
+	}
 	select {
 	case <-done:
 		vAssert(false, "Send number N+1 returned although no acknowledgement was received")
